@@ -174,7 +174,7 @@ fn read_eci(mut data: Reader) -> Result<(Reader, u32), DataDecodingError> {
                 return Err(DataDecodingError::UnexpectedCharacter("2nd after ECI", ch2));
             }
             let mut ch3 = data.eat()?;
-            if !matches!(ch2, 1..=254) {
+            if !matches!(ch3, 1..=254) {
                 return Err(DataDecodingError::UnexpectedCharacter("3rd after ECI", ch3));
             }
             ch1 -= 192;
